@@ -286,6 +286,14 @@ let run_case (env : mdesc array) (envl : mdesc list) (line : string) : string op
                                    (hex_of_bytes st.b_data) (List.length sizes)
                                    (if sizes = [] then "-" else String.concat "," sizes)
                                    nfree (if fscr then 1 else 0) (List.length (live_blocks st2.b_log))))
+       | "SPARSE" ->
+         (* the specification-level reading (Impl/SpecParse.v): U <msg> as UNPACK prints it, or U NONE when the bytes
+            are not a valid encoding for the schema *)
+         let d = next_int t in
+         let data = bytes_of_hex (next t) in
+         (match SpecParse.spec_parse_top envl (nat_of_int d) data with
+          | Some m -> Buffer.add_string b "U"; print_msg env b m
+          | None -> Buffer.add_string b "U NONE")
        | "SREAD" ->
          (* the reference reader of Spec/WireMsg.v on arbitrary bytes: R <num:wt:value>* | R - *)
          let bytes = bytes_of_hex (next t) in
